@@ -7,7 +7,14 @@ ENGINE_ASSUMPTIONS = [
     "any reconcile may run at any time (superset of event-driven schedules); time-based requeues are ignored; successDelaySeconds=0",
 ]
 
+def engine_prop(test, quick=800, thorough=60000):
+    return {"level": "exploration", "assumptions": ENGINE_ASSUMPTIONS,
+            "parts": [{"name": "engine", "test": test, "quick_checks": quick, "thorough_checks": thorough, "thorough_shards": 16}]}
+
+
 PROPS = {
+    "C04": engine_prop("TestC04"),
+    "C05": engine_prop("TestC05"),
     "C01": {
         "level": "exploration",
         "assumptions": ENGINE_ASSUMPTIONS,
